@@ -181,6 +181,10 @@ func init() {
 					q := vec()
 					if j > 0 && rng.Intn(3) == 0 {
 						q = parseVec(l[rng.Intn(len(l))])
+						if rng.Intn(2) == 0 { // a near tie: moved along the direction by a few ulps up to 1e-9 (relative), either way
+							t := []float64{1e-16, 4e-16, 1e-13, 4e-11, 9e-11, 1e-10, 2e-10, 1e-9}[rng.Intn(8)] * float64(1-2*rng.Intn(2))
+							q = spatial.Vector3{X: q.X + t*b.X, Y: q.Y + t*b.Y, Z: q.Z + t*b.Z}
+						}
 					}
 					l = append(l, showVec(q))
 				}
